@@ -247,7 +247,9 @@ def header_policy(chk, ex):
         chk.replayed += 1
         want_ok = name == 'ok'
         if (r.get('ok') is not None) != want_ok or (not want_ok and not (400 <= r.get('err', 0) <= 499)):
-            raise Inconclusive(f'witness mismatch header/{name}: {case} -> {r}')
+            # a concrete header of a class the statement speaks about, answered otherwise by the real policy
+            chk.counterexample(f'header policy on a {name} version header: {case["header"]!r} max={case["max"]} -> {r}', case, True, role='header:' + name)
+            continue
         chk.samples.append({'header': case['header'], 'max': case['max'], 'native': r})
     if n_ok == 0: raise Inconclusive('header policy: Ok path unreachable')
 
